@@ -52,12 +52,12 @@ type rootSpec struct {
 }
 
 type program struct {
-	Nodes   []nodeSpec `json:"nodes"`
-	Roots   []rootSpec `json:"roots"`
-	Prio    []int      `json:"prio"`     // gate ids, highest priority first
-	QuietUs int        `json:"quiet_us"` // quiescence window
-	Free    bool       `json:"free"`     // no gates at all: let the Go scheduler decide
-	Contend *contendSpec `json:"contend"` // contention mode instead of a program (contend.go)
+	Nodes   []nodeSpec   `json:"nodes"`
+	Roots   []rootSpec   `json:"roots"`
+	Prio    []int        `json:"prio"`     // gate ids, highest priority first
+	QuietUs int          `json:"quiet_us"` // quiescence window
+	Free    bool         `json:"free"`     // no gates at all: let the Go scheduler decide
+	Contend *contendSpec `json:"contend"`  // contention mode instead of a program (contend.go)
 }
 
 type event struct {
